@@ -3,7 +3,7 @@
    law is used, so they hold verbatim for Z, Q, R and for IEEE floats with a fixed summation order);
    the centring lemmas hold for every Op satisfying ring_theory. *)
 From Coq Require Import List Arith ZArith Ring Permutation Reals Lia.
-From TLV Require Import Base.Shape Base.PyList Base.Tensor Base.Ops Model.Base Model.Regress Proofs.RegressProofs Proofs.RegressProofsPlsr Proofs.RegressProofsR Proofs.RegressProofsLink Proofs.RegressProofsBlock.
+From TLV Require Import Base.Shape Base.PyList Base.Tensor Base.Ops Model.Base Model.Regress Proofs.RegressProofs Proofs.RegressProofsPlsr Proofs.RegressProofsR Proofs.RegressProofsLink Proofs.RegressProofsBlock Model.RegressObj Proofs.RegressProofsObj.
 From TLV Require Model.Factorized Proofs.FactorizedProofs5.
 Import ListNotations.
 
@@ -345,6 +345,187 @@ Theorem C19_tucker_to_tensor_code_level : forall (F : Type) (Op : fops F), is_ri
 Proof. exact @tucker_to_tensor_link. Qed.
 Print Assumptions C19_tucker_to_tensor_code_level.
 
+(* ---- which pass the regressors' fit stops in, n_iterations_ and norm_W_ (Model/RegressObj.v: reg_fit_full = reg_fit + the two
+   extra attributes).  With k = n_iterations_: 1 <= k <= n_iter_max; the exposed blocks, weight_tensor_ and vec_W_ are those after
+   exactly k passes; norm_W_ lists the norms after passes 1..k; no pass j in [3, k) met the stopping test; if k < n_iter_max then
+   k >= 3 and pass k met it.  So k = min(n_iter_max, first pass >= 3 with |norm_k - norm_(k-1)| / norm_k <= tol): one statement
+   for a fit ended by n_iter_max and one ended by the tolerance, for both regressors (any sweep / norm / test) ---- *)
+Theorem C19_reg_fit_trace : forall (F P : Type) (sweep : P -> P) (rebuild : P -> tensor F) (nrm : tensor F -> F) (small : F -> F -> bool)
+  (w0 : P) (n_iter : nat) (r : reg_full),
+  reg_fit_full sweep rebuild nrm small n_iter w0 = Ok r ->
+  let k := rf_n_iterations r in
+  1 <= k <= n_iter /\
+  r_blocks (rf_stored r) = passes sweep k w0 /\
+  r_weight_tensor (rf_stored r) = rebuild (passes sweep k w0) /\
+  r_vec (rf_stored r) = tensor_to_vec (rebuild (passes sweep k w0)) /\
+  rf_norm_W r = map (norm_at sweep rebuild nrm w0) (seq 1 k) /\
+  (forall j : nat, 3 <= j < k -> stop_test sweep rebuild nrm small w0 j = false) /\
+  (k < n_iter -> 3 <= k /\ stop_test sweep rebuild nrm small w0 k = true).
+Proof. exact @reg_fit_trace. Qed.
+Print Assumptions C19_reg_fit_trace.
+
+(* reg_fit_full stores exactly what reg_fit (the subject of the theorems above) stores *)
+Theorem C19_reg_fit_full_stored : forall (F P : Type) (sweep : P -> P) (rebuild : P -> tensor F) (nrm : tensor F -> F)
+  (small : F -> F -> bool) (w0 : P) (n_iter : nat),
+  reg_fit sweep rebuild nrm small n_iter w0 =
+  match reg_fit_full sweep rebuild nrm small n_iter w0 with Ok r => Ok (rf_stored r) | Err => Err end.
+Proof. exact @reg_fit_full_stored. Qed.
+Print Assumptions C19_reg_fit_full_stored.
+
+Theorem C19_reg_fit_exhausts : forall (F P : Type) (sweep : P -> P) (rebuild : P -> tensor F) (nrm : tensor F -> F)
+  (small : F -> F -> bool) (w0 : P) (n_iter : nat) (r : reg_full),
+  reg_fit_full sweep rebuild nrm small n_iter w0 = Ok r ->
+  (forall j : nat, 3 <= j <= n_iter -> stop_test sweep rebuild nrm small w0 j = false) -> rf_n_iterations r = n_iter.
+Proof. exact @reg_fit_exhausts. Qed.
+Print Assumptions C19_reg_fit_exhausts.
+
+(* ---- one regressor OBJECT under an arbitrary sequence of calls (fit that succeeds or raises, predict, set_params, get_params):
+   the attributes are absent until a fit succeeds, a raising fit and the other calls leave them alone, a successful fit re-binds
+   them from the parameters in force (= the last set_params) and its own arguments only, every predict answers from the
+   attributes bound at that moment, and whatever every successful fit establishes holds in every reachable state ---- *)
+Theorem C19_robj_reachable_inv : forall (F Prm D St : Type) (fit_of : Prm -> D -> res St) (predict_of : St -> tensor F -> res (tensor F))
+  (Inv : St -> Prop),
+  (forall (p : Prm) (d : D) (st : St), fit_of p d = Ok st -> Inv st) ->
+  forall (cs : list rcall) (o : robj),
+  (forall st : St, o_attrs o = Some st -> Inv st) ->
+  forall st : St, o_attrs (fst (rrun fit_of predict_of o cs)) = Some st -> Inv st.
+Proof. exact @robj_reachable_inv. Qed.
+Print Assumptions C19_robj_reachable_inv.
+
+Theorem C19_robj_frame : forall (F Prm D St : Type) (fit_of : Prm -> D -> res St) (predict_of : St -> tensor F -> res (tensor F))
+  (cs : list rcall) (o : robj), no_refit fit_of predict_of o cs -> o_attrs (fst (rrun fit_of predict_of o cs)) = o_attrs o.
+Proof. exact @robj_frame. Qed.
+Print Assumptions C19_robj_frame.
+
+Theorem C19_robj_fit_overwrites : forall (F Prm D St : Type) (fit_of : Prm -> D -> res St) (predict_of : St -> tensor F -> res (tensor F))
+  (o : robj) (cs : list rcall) (d : D) (st : St),
+  fit_of (last_params (o_params o) cs) d = Ok st -> o_attrs (fst (rrun fit_of predict_of o (cs ++ [RFit d]))) = Some st.
+Proof. exact @robj_fit_overwrites. Qed.
+Print Assumptions C19_robj_fit_overwrites.
+
+Theorem C19_robj_predict_uses_current : forall (F Prm D St : Type) (fit_of : Prm -> D -> res St)
+  (predict_of : St -> tensor F -> res (tensor F)) (cs1 : list rcall) (X : tensor F) (cs2 : list rcall) (o : robj),
+  nth (length cs1) (snd (rrun fit_of predict_of o (cs1 ++ RPredict X :: cs2))) ORaise =
+  match o_attrs (fst (rrun fit_of predict_of o cs1)) with
+  | Some st => match predict_of st X with Ok t => OTensor t | Err => ORaise end
+  | None => ORaise
+  end.
+Proof. exact @robj_predict_uses_current. Qed.
+Print Assumptions C19_robj_predict_uses_current.
+
+(* the two regressors as such objects (fit = the modelled loop for parameters p and data d, any sweep / norm / test / budget /
+   initial blocks as functions of p and d): after ANY history starting from a fresh object, if the object has attributes then
+   weight_tensor_ is the reconstruction of the exposed blocks, vec_W_ its vectorisation, and the next predict returns the
+   contraction of every sample with the reconstruction of the blocks exposed at that moment *)
+Theorem C19_cp_obj_history_predict : forall (F : Type) (Op : fops F) (Prm D : Type)
+  (sweep_of : Prm -> D -> tensor F * list (tensor F) -> tensor F * list (tensor F)) (nrm : tensor F -> F)
+  (small_of : Prm -> F -> F -> bool) (niter_of : Prm -> nat) (w0_of : Prm -> D -> tensor F * list (tensor F))
+  (cs : list rcall) (p0 : Prm) (st : reg_stored) (X : tensor F) (n : nat) (sx so : list nat),
+  o_attrs (fst (rrun (cp_obj_fit Op sweep_of nrm small_of niter_of w0_of) (cp_obj_predict Op) (mkRobj p0 None) cs)) = Some st ->
+  wf X -> shape X = n :: sx -> sx <> [] -> factor_rows (snd (r_blocks st)) = sx ++ so -> 0 < n -> 0 < prod so ->
+  r_weight_tensor st = cp_rebuild Op (r_blocks st) /\
+  r_vec st = tensor_to_vec (r_weight_tensor st) /\
+  (exists Pr : tensor F,
+     snd (rstep (cp_obj_fit Op sweep_of nrm small_of niter_of w0_of) (cp_obj_predict Op)
+            (fst (rrun (cp_obj_fit Op sweep_of nrm small_of niter_of w0_of) (cp_obj_predict Op) (mkRobj p0 None) cs))
+            (RPredict X)) = OTensor Pr /\
+     shape Pr = n :: so /\
+     (forall (i : nat) (o : list nat), i < n -> inb so o ->
+        tget Op Pr (i :: o) = fsum_idx Op sx (fun J => fmul Op (tget Op X (i :: J))
+          (fsumn Op (nth 0 (shape (fst (r_blocks st))) 0)
+             (fun r => fmul Op (tget Op (fst (r_blocks st)) [r]) (cp_coeff Op (snd (r_blocks st)) (J ++ o) r)))))).
+Proof. exact @cp_obj_history_predict. Qed.
+Print Assumptions C19_cp_obj_history_predict.
+
+Theorem C19_tucker_obj_history_predict : forall (F : Type) (Op : fops F) (Prm D : Type)
+  (sweep_of : Prm -> D -> tensor F * list (tensor F) -> tensor F * list (tensor F)) (nrm : tensor F -> F)
+  (small_of : Prm -> F -> F -> bool) (niter_of : Prm -> nat) (w0_of : Prm -> D -> tensor F * list (tensor F))
+  (cs : list rcall) (p0 : Prm) (st : reg_stored) (X : tensor F) (n : nat) (sx : list nat),
+  o_attrs (fst (rrun (tk_obj_fit Op sweep_of nrm small_of niter_of w0_of) (tk_obj_predict Op) (mkRobj p0 None) cs)) = Some st ->
+  wf X -> shape X = n :: sx -> sx <> [] -> factor_rows (snd (r_blocks st)) = sx -> 0 < n ->
+  r_weight_tensor st = tucker_rebuild Op (r_blocks st) /\
+  r_vec st = tensor_to_vec (r_weight_tensor st) /\
+  (exists Pr : tensor F,
+     snd (rstep (tk_obj_fit Op sweep_of nrm small_of niter_of w0_of) (tk_obj_predict Op)
+            (fst (rrun (tk_obj_fit Op sweep_of nrm small_of niter_of w0_of) (tk_obj_predict Op) (mkRobj p0 None) cs))
+            (RPredict X)) = OTensor Pr /\
+     shape Pr = [n] /\
+     (forall i : nat, i < n ->
+        tget Op Pr [i] = fsum_idx Op sx (fun J => fmul Op (tget Op X (i :: J))
+          (fsum_idx Op (shape (fst (r_blocks st)))
+             (fun K => fmul Op (tget Op (fst (r_blocks st)) K) (tk_coeff Op (snd (r_blocks st)) J K)))))).
+Proof. exact @tk_obj_history_predict. Qed.
+Print Assumptions C19_tucker_obj_history_predict.
+
+(* ---- the CP_PLSR object at the level of its entry points (Model/RegressObj.v: validation of fit / predict / transform, vector Y,
+   attributes assigned before the component loop, n_components read at call time, fit_transform) ---- *)
+(* which fits the validation rejects (object untouched), which raise inside the component loop (budget 0 with a component to
+   fit: shapes, means and ZERO factors are left behind), which succeed *)
+Theorem C19_plsr_fit_entry_cases : forall (F : Type) (Op : fops F) (sqrtF : F -> F) (init : tensor F -> list (tensor F))
+  (ne_solve : list (list F) -> list F -> list F) (p : pprm) (X Y : tensor F) (nx : nat) (sx : list nat) (ny : nat) (sy : list nat),
+  shape X = nx :: sx -> shape Y = ny :: sy ->
+  match plsr_fit_entry Op sqrtF init ne_solve p X Y with
+  | FitRaiseClean => nx <> ny \/ sx = [] \/ 2 <= length sy
+  | FitRaisePartial a =>
+      nx = ny /\ sx <> [] /\ length sy <= 1 /\ pp_niter p = 0 /\ 0 < pp_ncomp p /\ a_xshape a = shape X /\
+      a_fit a = zero_plsr Op (pp_ncomp p) X (as_matrix Y)
+  | FitOk _ => nx = ny /\ sx <> [] /\ length sy <= 1 /\ (0 < pp_niter p \/ pp_ncomp p = 0)
+  end.
+Proof. exact @plsr_fit_entry_cases. Qed.
+Print Assumptions C19_plsr_fit_entry_cases.
+
+(* fit(X, Y) then transform(X) on the object returns the fitted X scores (whatever the object went through before) *)
+Theorem C19_plsr_obj_fit_then_transform : forall (F : Type) (Op : fops F) (sqrtF : F -> F) (init : tensor F -> list (tensor F))
+  (ne_solve : list (list F) -> list F -> list F) (o : pobj) (X Y : tensor F) (a : pattrs),
+  plsr_fit_entry Op sqrtF init ne_solve (po_prm o) X Y = FitOk a ->
+  pstep Op sqrtF init ne_solve o (PFit X Y) = (mkPobj (po_prm o) (Some a), PSelf) /\
+  snd (pstep Op sqrtF init ne_solve (mkPobj (po_prm o) (Some a)) (PTransform X None)) =
+  PTensor (cols_to_matrix Op (nsamp X) (fitted_scores (a_fit a))).
+Proof. exact @plsr_obj_fit_then_transform. Qed.
+Print Assumptions C19_plsr_obj_fit_then_transform.
+
+(* the components are nested: scores over the first j loadings = the first j score columns; hence after
+   set_params(n_components = j) transform(X_train) returns the first j fitted score columns if j <= fitted width, else raises *)
+Theorem C19_plsr_transform_prefix : forall (F : Type) (Op : fops F) (j : nat) (loads : list (list (tensor F))) (X : tensor F),
+  transform_cols Op X (firstn j loads) = firstn j (transform_cols Op X loads).
+Proof. exact @transform_cols_firstn. Qed.
+Print Assumptions C19_plsr_transform_prefix.
+
+Theorem C19_plsr_obj_transform_fewer : forall (F : Type) (Op : fops F) (sqrtF : F -> F) (init : tensor F -> list (tensor F))
+  (ne_solve : list (list F) -> list F -> list F) (o : pobj) (X Y : tensor F) (a : pattrs) (j : nat) (tolv : F) (nit : nat),
+  plsr_fit_entry Op sqrtF init ne_solve (po_prm o) X Y = FitOk a ->
+  snd (pstep Op sqrtF init ne_solve (mkPobj (mkPprm j nit tolv) (Some a)) (PTransform X None)) =
+  (if j <=? pp_ncomp (po_prm o) then PTensor (cols_to_matrix Op (nsamp X) (firstn j (fitted_scores (a_fit a)))) else PRaise).
+Proof. exact @plsr_obj_transform_fewer. Qed.
+Print Assumptions C19_plsr_obj_transform_fewer.
+
+(* fit_transform(X, Y) = (fitted X scores, fitted Y scores) (commutative ring; solver contract: one coefficient per column) *)
+Theorem C19_plsr_obj_fit_transform : forall (F : Type) (Op : fops F), is_ring Op ->
+  forall (sqrtF : F -> F) (init : tensor F -> list (tensor F)) (ne_solve : list (list F) -> list F -> list F),
+  (forall (G : list (list F)) (b : list F), length (ne_solve G b) <= length G) ->
+  forall (o : pobj) (X Y : tensor F) (a : pattrs),
+  plsr_fit_entry Op sqrtF init ne_solve (po_prm o) X Y = FitOk a ->
+  pstep Op sqrtF init ne_solve o (PFitTransform X Y) =
+  (mkPobj (po_prm o) (Some a),
+   PPair (cols_to_matrix Op (nsamp X) (fitted_scores (a_fit a)))
+         (cols_to_matrix Op (nsamp (as_matrix Y)) (map (c_yscore (F:=F)) (comps (a_fit a))))).
+Proof. exact @plsr_obj_fit_transform. Qed.
+Print Assumptions C19_plsr_obj_fit_transform.
+
+(* the state left by a fit that raised inside the component loop: predict answers the mean of the NEW targets for every sample
+   (zero scores times a zero coef_), i.e. it still predicts with exactly the (zero) weights the object exposes *)
+Theorem C19_plsr_obj_zero_state_predict : forall (F : Type) (Op : fops F), is_ring Op ->
+  forall (sqrtF : F -> F) (init : tensor F -> list (tensor F)) (ne_solve : list (list F) -> list F -> list F)
+  (o : pobj) (X Y : tensor F) (a : pattrs) (Xn : tensor F) (ny m : nat),
+  plsr_fit_entry Op sqrtF init ne_solve (po_prm o) X Y = FitRaisePartial a ->
+  shape (as_matrix Y) = [ny; m] -> tl (shape Xn) = tl (shape X) ->
+  exists Pr : tensor F,
+    snd (pstep Op sqrtF init ne_solve (mkPobj (po_prm o) (Some a)) (PPredict Xn)) = PTensor Pr /\
+    shape Pr = [nsamp Xn; m] /\
+    (forall i j : nat, i < nsamp Xn -> j < m -> tget Op Pr [i; j] = tget Op (mean0 Op (as_matrix Y)) [j]).
+Proof. exact @plsr_obj_zero_state_predict. Qed.
+Print Assumptions C19_plsr_obj_zero_state_predict.
+
 (* non-vacuity: Z is an instance; a 2-sample 2x2 problem with a vector-valued target *)
 Example C19_Z_is_ring : is_ring Zops.
 Proof. exact Zth. Qed.
@@ -436,3 +617,40 @@ Example C19_cp_plsr_fit_nonvacuous :
   cp_plsr_fit Zops Z.sqrt init (fun _ b => b) 0%Z 0 0 X Y <> Err /\
   exists r, cp_plsr_fit Zops Z.sqrt init (fun _ b => b) 0%Z 2 1 X Y = Ok r /\ length (comps r) = 1.
 Proof. cbv zeta. split; [reflexivity|]. split; [vm_compute; discriminate|]. eexists. split; [reflexivity | vm_compute; reflexivity]. Qed.
+
+(* the trace of the regressors' loop (Z instance: blocks = pass counter, norm = its value): a test that always holds stops the
+   loop in pass 3, a test that never holds exhausts the budget *)
+Example C19_reg_fit_trace_nonvacuous :
+  (exists r, reg_fit_full (F:=Z) (fun w : nat => S w) (fun w => mk [1] [Z.of_nat w]) (fun t => nth 0 (data t) 0%Z) (fun _ _ => true) 5 0 = Ok r /\
+             rf_n_iterations r = 3 /\ rf_norm_W r = [1; 2; 3]%Z) /\
+  (exists r, reg_fit_full (F:=Z) (fun w : nat => S w) (fun w => mk [1] [Z.of_nat w]) (fun t => nth 0 (data t) 0%Z) (fun _ _ => false) 5 0 = Ok r /\
+             rf_n_iterations r = 5 /\ r_blocks (rf_stored r) = 5).
+Proof. split; eexists; (split; [vm_compute; reflexivity|split; reflexivity]). Qed.
+
+(* an object history (attributes = a number): predict before fit raises, a raising fit keeps the attributes of the earlier one,
+   a later fit overwrites them *)
+Example C19_robj_nonvacuous :
+  let fit_of := fun (p d : nat) => if p =? 0 then Err else Ok (p + d) in
+  let predict_of := fun (st : nat) (X : tensor Z) => Ok (mk [1] [Z.of_nat st]) in
+  snd (rrun fit_of predict_of (mkRobj 2 None)
+         [RPredict (mk [] []); RFit 5; RSetParams 0; RFit 9; RPredict (mk [] []); RSetParams 1; RFit 9; RPredict (mk [] [])]) =
+  [ORaise; OSelf; OSelf; ORaise; OTensor (mk [1] [7%Z]); OSelf; OSelf; OTensor (mk [1] [10%Z])].
+Proof. reflexivity. Qed.
+
+(* the CP_PLSR entry points compute (Z instance of the Example above): a matrix target and a vector target are accepted, a 3-mode
+   target and uncoupled first modes are rejected, the budget 0 leaves the zero state *)
+Example C19_plsr_obj_nonvacuous :
+  let X := mk [3; 2; 2] [4; -1; 0; 2; -3; 5; 1; 1; 2; 0; -2; -6]%Z in
+  let Y := mk [3; 2] [1; 0; -2; 3; 4; -1]%Z in
+  let init := fun _ : tensor Z => [mk [2] [1; 0]%Z; mk [2] [0; 1]%Z] in
+  let entry := plsr_fit_entry Zops Z.sqrt init (fun _ b => b) in
+  (exists a, entry (mkPprm 1 2 0%Z) X Y = FitOk a /\ fitted_width a = 1) /\
+  (exists a, entry (mkPprm 1 2 0%Z) X (mk [3] [1; -2; 4]%Z) = FitOk a /\ a_yshape a = [3; 1]) /\
+  (exists a, entry (mkPprm 1 0 0%Z) X Y = FitRaisePartial a) /\
+  entry (mkPprm 1 2 0%Z) X (mk [3; 1; 2] [1; 0; -2; 3; 4; -1]%Z) = FitRaiseClean /\
+  entry (mkPprm 1 2 0%Z) X (mk [2; 2] [1; 0; -2; 3]%Z) = FitRaiseClean.
+Proof.
+  cbv zeta. split; [eexists; split; [reflexivity|vm_compute; reflexivity]|].
+  split; [eexists; split; [reflexivity|vm_compute; reflexivity]|].
+  split; [eexists; reflexivity|]. split; vm_compute; reflexivity.
+Qed.
